@@ -266,6 +266,11 @@ func parseSrc(mode string, src []byte) ([]ast.Statement, error) {
 	}
 }
 
+// bytes (and their statements) returned by the PREVIOUS src request of this process: results the
+// caller still holds must stay valid across later Encode/Decode calls (pooled buffers, decoder state)
+var heldBin []byte
+var heldAst string
+
 func codecDecode(bin []byte) string {
 	stmts, err := codec.NewDecoder(bytes.NewReader(bin)).Decode()
 	if err != nil {
@@ -298,7 +303,21 @@ func init() {
 			if err != nil {
 				return fmt.Sprintf("ast %s | encerr", astS)
 			}
-			return fmt.Sprintf("ast %s | enc %x | dec %s", astS, bin, safe(func(string) string { return codecDecode(bin) }, ""))
+			held := "held -"
+			if heldBin != nil {
+				if r := safe(func(string) string { return codecDecode(heldBin) }, ""); r == "ok "+heldAst {
+					held = "held ok"
+				} else {
+					held = "held MISMATCH"
+				}
+			}
+			reply := fmt.Sprintf("ast %s | enc %x | dec %s | %s", astS, bin, safe(func(string) string { return codecDecode(bin) }, ""), held)
+			if len(bin) < 1<<16 {
+				heldBin, heldAst = bin, astS
+			} else {
+				heldBin = nil
+			}
+			return reply
 		case len(f) >= 1 && f[0] == "dec":
 			h := ""
 			if len(f) > 1 {
